@@ -8,6 +8,7 @@ From Jade.Gen Require Import ReportsGen.
 Import ListNotations.
 Open Scope string_scope.
 Open Scope list_scope.
+Set Default Timeout 60.
 
 (* ---------------- events ---------------- *)
 (* For every number of event files of any length and every name: the consolidated list for the name
@@ -178,7 +179,10 @@ Example c20_ex_stats :
   Forall (fun v => (0 <= v <= sys_maxsize)%Z) [3; 5; 5; 9]%Z /\
   (let s := node_run [9; 5; 3]%Z in (s_min s, s_max s)) = (3, 9)%Z /\
   option_map (fun s => (s_min s, s_max s, s_sum s, s_count s)) (proc_run [(-2); 7; (-5)]%Z) = Some ((-5), 7, 0, 3)%Z.
-Proof. vm_compute. repeat split; try reflexivity; repeat constructor; discriminate. Qed.
+Proof.
+  split; [vm_compute; reflexivity|]. split; [|split; vm_compute; reflexivity].
+  repeat constructor; apply Z.leb_le; reflexivity.
+Qed.
 Example c20_ex_tally :
   let rows := [mkRow "a" 0 "finished"; mkRow "c" 1 "canceled"; mkRow "d" 2 "finished"] in
   let jobs := ["a"; "b"; "c"; "d"; "e"] in
